@@ -51,12 +51,19 @@ SHAPES = [
     ("imm:v+1", "#v+1", "imm", "v+1"),
     ("(dir),y:v+1", "(v+1),y", "(dir),y", "v+1"),
     ("dir,x:v*2", "v*2,x", "dir,x", "v*2"),
+    # indirect operands whose expression itself contains a parenthesised group
+    ("(dir):((v)+1)", "((v)+1)", "(dir)", "v+1"),
+    ("(dir):((v))", "((v))", "(dir)", "v"),
+    ("(dir),y:((v)+1)", "((v)+1),y", "(dir),y", "v+1"),
+    ("(dir,x):((v)*2,x)", "((v)*2,x)", "(dir,x)", "v*2"),
+    ("[dir]:[(v)+1]", "[(v)+1]", "[dir]", "v+1"),
+    ("(dir):(1+(v))", "(1+(v))", "(dir)", "v+1"),
 ]
 SUFFIXES = ["", ".b", ".w", ".l"]
 
 META = {
     "bounds": {
-        "quick": "one instruction per program; operand v in [0,2^32) symbolic; all mnemonics (tree table + ISA) x 28 operand shapes x 4 suffixes; lower case everywhere + upper case for every mnemonic; 6 mnemonics with the operand written as a literal (hex 1-6 digits incl. leading zeros, decimal 1-5, binary 1/8/9 digits, all digits symbolic) x 15 well-formed shapes x 4 suffixes",
+        "quick": "one instruction per program; operand v in [0,2^32) symbolic; all mnemonics (tree table + ISA) x 34 operand shapes x 4 suffixes; lower case everywhere + upper case for every mnemonic; 6 mnemonics with the operand written as a literal (hex 1-6 digits incl. leading zeros, decimal 1-5, binary 1/8/9 digits, all digits symbolic) x 15 well-formed shapes x 4 suffixes",
         "thorough": "same + mixed case variants (upper mnemonic only, upper suffix only, upper index only)",
     },
     "outside": [
